@@ -43,6 +43,10 @@ def run(ctx):
         mech.hint_writers(ctx, "availability", crate, tag)
         mech.hint_arms(ctx, crate, crs, tag)
         mech.guards(ctx, crate, tag)
+        # a union's sorted list is the concatenation of all member lists: an error of one member must reach the caller instead
+        # of being dropped from the (insert-only) cached list - the join census of C12, restricted to the cache
+        import c12
+        ctx.guard("short-circuit" + tag, c12.fan_outs, ctx, crate, tag, "resolvo::solver::cache::", 1)
 
 
 def sorted_provenance(ctx, crate, crs, tag):
